@@ -30,8 +30,17 @@ pub struct C02;
 pub fn gen_rd_backend(rng: &mut Rng, sel: u64, benign_rate: u64, max_calls: usize) -> RdBackend {
     let mut plan = FaultPlan::none();
     if benign_rate > 0 {
+        // one faulty run in 12 uses a "trickle" device: nearly every call is interrupted or
+        // transfers a single byte
+        let trickle = rng.chance(1, 12);
+        let benign_rate = if trickle { rng.range(85, 100) } else { benign_rate };
+        let max_calls = if trickle { max_calls * 12 } else { max_calls };
         for c in 0..max_calls {
             if rng.below(100) < benign_rate {
+                if trickle {
+                    plan.at.push((c, if rng.chance(1, 2) { Fault::Interrupted } else { Fault::Short(1) }));
+                    continue;
+                }
                 plan.at.push((
                     c,
                     if rng.chance(1, 3) {
